@@ -79,12 +79,14 @@ class GenericResolver(Generic[K, M]):
             return tp
         return tp[tuple(chain.from_iterable(type_var_to_actual[type_var] for type_var in params))]
 
+    def _has_type_vars(self, tp: TypeHint) -> bool:
+        if isinstance(tp, InitVar):  # InitVar[T] has no `__parameters__`
+            return self._has_type_vars(tp.type)
+        return bool(get_type_vars_of_parametrized(tp)) or isinstance(tp, TypeVar)
+
     def _get_members_by_parents(self, tp) -> MembersStorage[K, M]:
         members_storage = self._raw_members_getter(tp)
-        if not any(
-            get_type_vars_of_parametrized(tp) or isinstance(tp, TypeVar)
-            for tp in members_storage.members.values()
-        ):
+        if not any(self._has_type_vars(tp) for tp in members_storage.members.values()):
             return members_storage
         # attribute lookup finds `__orig_bases__` of the first parent if class has only non-generic parents
         orig_bases = getattr(tp, "__dict__", {}).get("__orig_bases__", getattr(tp, "__bases__", ()))
@@ -103,7 +105,7 @@ class GenericResolver(Generic[K, M]):
                     if (
                         key in bases_members
                         and key not in members_storage.overriden
-                        and (is_generic(value) or isinstance(value, TypeVar))
+                        and (is_generic(value) or self._has_type_vars(value))
                     )
                     else value
                 )
